@@ -158,6 +158,9 @@ def replay_case(task):
     return base.generic_replay_case(FAMILIES, task)
 
 
+THOROUGH_KEEP = {'*': 0.5}      # see vf/runner.py (time: about 10 minutes per thorough tier)
+
+
 def cases(tier, seed):
     out = []
     n = 0
